@@ -59,6 +59,31 @@ def structures(run):
     return out
 
 
+def large_sparse(rng, host_n, guest_n):
+    """a big host with no terms followed by a small bonded guest in which atoms occur in several term slots; many deletions
+    spread over the host (numpy switches algorithms with the size and spread of such index arrays)"""
+    st = tagged(rng, host_n + guest_n, "L", True, cell=CELL, rich=False, max_terms=0)
+    g = list(range(host_n, host_n + guest_n))
+    for k, t_, c_, x_, l_, ar in KINDS:
+        kk = st[k]
+        tups = []
+        for _ in range(3):
+            t = tuple(rng.sample(g, ar))
+            if t not in tups and t[::-1] not in tups:
+                tups.append(t)
+        if ar == 2:  # a chain: every inner guest atom sits in two bond slots
+            tups = [(g[i], g[i + 1]) for i in range(guest_n - 1)]
+        kk["tup"] = tups
+        kk["typ"] = [0] * len(tups)
+        kk["xf"] = [["tL%s%d" % (k[0], j)] + ["q"] * (len(kk["xl"]) - 1) for j in range(len(tups))]
+    nd = rng.randint(20, 44)
+    step = host_n // nd
+    ds = sorted(rng.randrange(i * step, (i + 1) * step) for i in range(nd))
+    if rng.random() < 0.3:
+        ds.append(g[rng.randrange(guest_n)])
+    return st, ds
+
+
 def main(tier, seed, replay=None):
     run = Run("C10", tier, seed)
     ok_static = run.build_static()
@@ -87,6 +112,9 @@ def main(tier, seed, replay=None):
                             cases.append((st, [("del", sh)], "subset-shuffled"))
                 for p in list(range(-n, n)):
                     cases.append((st, [("pop", p)], "pop"))
+            for i in range(4 if tier == "quick" else 40):
+                st, ds = large_sparse(run.rng, run.rng.choice([300, 450, 600, 900]), run.rng.randint(8, 14))
+                cases.append((st, [("del", ds)], "large-sparse"))
         I = AIO.Interner()
         lits = []
         for init, ops, kind in cases:
